@@ -805,6 +805,8 @@ def c_err(ex, st, args, path, callee):
         a = d(ex, args[0])
         if isinstance(a, Enum):
             kind = a.variant
+        elif isinstance(a, Struct) and a.ty:
+            kind = a.ty
         elif isinstance(a, Err):
             return ret(a, path)
     return ret(Err(callee[:80], kind), path)
